@@ -51,6 +51,8 @@ const KNOWN_RULES: &[&str] = &[
     "let_else",
     "str_pattern",
     "take_read",
+    "as_deref",
+    "const_static",
 ];
 
 pub fn apply(repo: &str, req: &ItemReq, f: &mut FnUnderEdit) -> Result<(), String> {
@@ -209,6 +211,14 @@ pub fn apply(repo: &str, req: &ItemReq, f: &mut FnUnderEdit) -> Result<(), Strin
         f.fire("take_read", n);
     }
 
+    // R23 Option<String>::as_deref() -> vx_as_deref(&x)
+    if has("as_deref") {
+        let mut v = AsDeref { n: 0 };
+        v.visit_block_mut(&mut f.block);
+        let n = v.n;
+        f.fire("as_deref", n);
+    }
+
     // R11 generics
     if has("generics") {
         let n = generics(req, &mut f.sig, &mut f.block)?;
@@ -310,6 +320,41 @@ pub fn apply_item(
         }
         if n > 0 {
             *fired.entry("attrs".into()).or_insert(0) += n;
+        }
+    }
+    if has("const_static") {
+        // `const X: &str` -> `const X: &'static str` (the elided lifetime of a const is 'static)
+        if let syn::Item::Const(c) = item {
+            if let syn::Type::Reference(r) = &mut *c.ty {
+                if r.lifetime.is_none() {
+                    r.lifetime = Some(syn::parse_quote!('static));
+                    *fired.entry("const_static".into()).or_insert(0) += 1;
+                }
+            }
+        }
+    }
+    if has("generics") && !req.drop_generics.is_empty() {
+        if let syn::Item::Struct(st) = item {
+            let params: Vec<syn::GenericParam> = st
+                .generics
+                .params
+                .iter()
+                .filter(|p| match p {
+                    syn::GenericParam::Type(t) => !req.drop_generics.contains(&t.ident.to_string()),
+                    _ => true,
+                })
+                .cloned()
+                .collect();
+            let n = st.generics.params.len() - params.len();
+            st.generics.params = params.into_iter().collect();
+            if st.generics.params.is_empty() {
+                st.generics.lt_token = None;
+                st.generics.gt_token = None;
+                st.generics.where_clause = None;
+            }
+            if n > 0 {
+                *fired.entry("generics".into()).or_insert(0) += n;
+            }
         }
     }
     if has("generics") && !req.subst.is_empty() {
@@ -547,6 +592,23 @@ impl syn::parse::Parse for VecRepeat {
     }
 }
 
+// ---------------------------------------------------------------- R23
+struct AsDeref {
+    n: usize,
+}
+impl VisitMut for AsDeref {
+    fn visit_expr_mut(&mut self, e: &mut syn::Expr) {
+        visit_mut::visit_expr_mut(self, e);
+        if let syn::Expr::MethodCall(m) = e {
+            if m.method == "as_deref" && m.args.is_empty() {
+                let recv = &m.receiver;
+                *e = syn::parse_quote!(vx_as_deref(&#recv));
+                self.n += 1;
+            }
+        }
+    }
+}
+
 // ---------------------------------------------------------------- R21
 struct TakeRead {
     n: usize,
@@ -603,7 +665,7 @@ impl<'a> VisitMut for TypeSubst<'a> {
         if let syn::Type::Path(p) = t {
             if p.qself.is_none() {
                 let full = norm(&p.path);
-                if p.path.segments.len() > 1 {
+                if p.path.segments.len() > 1 || full.contains('<') {
                     if let Some(rep) = self.map.get(&full) {
                         match parse_type(rep) {
                             Ok(nt) => {
@@ -711,6 +773,38 @@ fn generics(req: &ItemReq, sig: &mut syn::Signature, block: &mut syn::Block) -> 
     for p in sig.generics.params.iter_mut() {
         if let syn::GenericParam::Type(t) = p {
             n += filter_bounds(&mut t.bounds);
+            // bound renaming: "bound:Deserialize<'a>" -> "JsonDe"
+            for b in t.bounds.iter_mut() {
+                if let syn::TypeParamBound::Trait(tb) = b {
+                    let key = format!("bound:{}", norm(&tb.path));
+                    if let Some(rep) = req.subst.get(&key) {
+                        if let Ok(np) = syn::parse_str::<syn::Path>(rep) {
+                            tb.path = np;
+                            n += 1;
+                        }
+                    }
+                }
+            }
+        }
+    }
+    // drop lifetimes named in drop_generics (e.g. "'a")
+    {
+        let before = sig.generics.params.len();
+        let params: Vec<syn::GenericParam> = sig
+            .generics
+            .params
+            .iter()
+            .filter(|p| match p {
+                syn::GenericParam::Lifetime(l) => !req.drop_generics.contains(&format!("'{}", l.lifetime.ident)),
+                _ => true,
+            })
+            .cloned()
+            .collect();
+        sig.generics.params = params.into_iter().collect();
+        n += before - sig.generics.params.len();
+        if sig.generics.params.is_empty() {
+            sig.generics.lt_token = None;
+            sig.generics.gt_token = None;
         }
     }
     if sig.generics.params.is_empty() {
